@@ -379,16 +379,16 @@ RECURSIVE VSumFrom(_, _, _, _)
 VSumFrom(tags, cs, mem, i) == IF i > Len(cs) THEN Zeros(8)
                               ELSE AddC(VarAddend(tags[i], cs[i], mem), VSumFrom(tags, cs, mem, i + 1))
 
-\* (accumulating, each partial sum evaluated eagerly: the arrays have hundreds of items)
-RECURSIVE ISumAcc(_, _, _, _, _, _), FieldSum(_, _, _), ASumAcc(_, _, _, _, _)
-ISumAcc(mem, p, t, i, n, acc) ==
-    IF i >= n THEN acc
-    ELSE LET nx == TLCEval(AddC(acc, Ext(RdMem(mem, p, i, SizeOf(t)), SignedT(t), 8)))
-         IN ISumAcc(mem, p, t, i + 1, n, nx)
+\* sums over arrays of hundreds of items: add the 8 digit columns with TLC's own integers
+\* (a column sum stays far below 2^31), then propagate the carries once
+RECURSIVE ColSum(_, _, _), Carry(_, _, _), FieldSum(_, _, _)
+ColSum(vals, d, i) == IF i > Len(vals) THEN 0 ELSE vals[i][d] + ColSum(vals, d, i + 1)
+Carry(cols, d, c) == IF d > Len(cols) THEN <<>>
+                     ELSE <<(cols[d] + c) % Base>> \o Carry(cols, d + 1, (cols[d] + c) \div Base)
+SumVals(vals) == LET cols == TLCEval([d \in 1..8 |-> ColSum(vals, d, 1)]) IN Carry(cols, 1, 0)
 FieldSum(ts, c, j) == IF j > Len(ts) THEN Zeros(8) ELSE TLCEval(AddC(Ext(c[j], SignedT(ts[j]), 8), FieldSum(ts, c, j + 1)))
-ASumAcc(s, items, i, n, acc) ==
-    IF i > n THEN acc
-    ELSE LET nx == TLCEval(AddC(acc, FieldSum(s.fields, items[i], 1))) IN ASumAcc(s, items, i + 1, n, nx)
+ISum(mem, p, t, n) == SumVals(TLCEval([i \in 1..n |-> Ext(RdMem(mem, p, i - 1, SizeOf(t)), SignedT(t), 8)]))
+ASum(s, items, n) == SumVals(TLCEval([i \in 1..n |-> FieldSum(s.fields, items[i], 1)]))
 
 \* Apply: the C semantics; cs = converted arguments
 Apply(fn, cs, vtags, mem, errno) ==
@@ -401,8 +401,8 @@ Apply(fn, cs, vtags, mem, errno) ==
                           mem |-> mem, errno |-> errno]
       [] fn.f = "bump" -> [ret |-> <<>>, errno |-> errno,
                            mem |-> BumpFrom(mem, cs[1], SizeOf(fn.t), 0, NatOf(cs[2]))]
-      [] fn.f = "isum" -> [ret |-> ISumAcc(mem, cs[1], fn.t, 0, NatOf(cs[2]), Zeros(8)), mem |-> mem, errno |-> errno]
-      [] fn.f = "asum" -> [ret |-> ASumAcc(fn.s, cs[1].data, 1, NatOf(cs[2]), Zeros(8)), mem |-> mem, errno |-> errno]
+      [] fn.f = "isum" -> [ret |-> ISum(mem, cs[1], fn.t, NatOf(cs[2])), mem |-> mem, errno |-> errno]
+      [] fn.f = "asum" -> [ret |-> ASum(fn.s, cs[1].data, NatOf(cs[2])), mem |-> mem, errno |-> errno]
       [] fn.f = "seterr" -> [ret |-> Enc(FromNat(errno), 4), mem |-> mem, errno |-> NatOf(cs[1])]
       [] fn.f = "smake" -> [ret |-> cs, mem |-> mem, errno |-> errno]
       [] fn.f = "sget" -> [ret |-> cs[1][fn.k], mem |-> mem, errno |-> errno]
